@@ -13,9 +13,10 @@ def builtin_from_name(inference_state, string):
         filter_ = next(builtins.get_filters())
     else:
         filter_ = next(typing_builtins_module.get_filters())
-    name, = filter_.get(string)
-    # Most of the time there is only symbol, but sometimes there are different
-    # sys.version_infos, where there are multiple ones, just use the first one.
+    # Most of the time there is only one name and one symbol, but sometimes
+    # there are different sys.version_infos, where there are multiple ones
+    # (e.g. `Ellipsis` is defined in both branches), just use the first one.
+    name = next(iter(filter_.get(string)))
     return next(iter(name.infer()))
 
 
